@@ -67,3 +67,11 @@ Theorem C04_phase_monitor_sound :
     NoDup (map (desired_key (pc_owner c)) (pc_objects c)) -> m04p (set_obs c (model_run c)) = true.
 Proof. exact m04p_objectset_sound. Qed.
 Print Assumptions C04_phase_monitor_sound.
+
+(** The controller-level monitor m04 (coq/corr/SetMonitors.v: reverse order over the local phases; finalizer removed /
+    Archived=True only when every listed object is gone or released; until then the finalizer stays and an archived
+    set reports Archived=False; nothing deleted under orphan propagation) accepts every pass of the model. *)
+From PKOCorr Require Import SetCorr SetMonitors SetMonSound SetMonSound2.
+Theorem C04_set_monitor_sound : forall c : scase, m04 (set_obs_s c (SetCorr.model_run c)) = true.
+Proof. exact m04_sound. Qed.
+Print Assumptions C04_set_monitor_sound.
